@@ -107,6 +107,15 @@ def oracle_tcpstream(case, impl):
     shuts down its writing side after its last query still gets every reply ("never silence")."""
     import re
     f = case.split(" ")
+    if f[0] == "stallread":
+        m = re.match(r"whole=(\d+)/(\d+)$", impl)
+        if not m:
+            return "stallread: " + impl[:80]
+        if m.group(1) != m.group(2):
+            return ("%s pipelined TCP queries with 60000-byte answers, the client started reading after %s ms (request timeout 300 ms) and "
+                    "then asked once more: only %s of %s replies arrived whole behind a correct length prefix - a reply was cut or the "
+                    "framing of the connection is off" % (f[1], f[2], m.group(1), m.group(2)))
+        return None
     if f[0] == "halfclose":
         m = re.match(r"replied=(\d+)/(\d+)$", impl)
         if not m:
